@@ -14,7 +14,11 @@ data = `k.seed.len` | `x<hex>`; blob = `@/abs/path[#prefixLen]` | `x<hex>`
 namespace Lz4V.Session
 open Lz4V Lz4V.Util Lz4V.Go Lz4V.Model
 
-def optNat (s : String) : Option Nat := if s == "-1" || s == "-" then none else s.toNat?
+/-- a failure point: `-1` never; `k` from the k-th call on; `k!` (a transient failure of the k-th call only) is
+the same for the model, because no Writer or Reader calls its sink or source again after a failure -/
+def optNat (s : String) : Option Nat :=
+  let s := s.replace "!" ""
+  if s == "-1" || s == "-" then none else s.toNat?
 
 def loadBlob (t : String) : IO (Array UInt8) := do
   if t.startsWith "@" then
